@@ -5,43 +5,37 @@
   them (request `accguard`, suite `build`).
 
   * `NoReservedDecls env t`: the guard that delimits the known findings
-    `C03:reserved-prefix-or-namespace-rebound-accepted` / `C03:prefixed-undeclaration-accepted`:
-    no namespace node binds the prefix `xml` or `xmlns`, binds anything to the XML namespace name or
-    to the xmlns namespace name, or binds a non-empty prefix to the empty namespace name.
-  * `PlainPiTargets env t`: every processing-instruction target is an NCName other than `xml` in any
-    letter case — what `Representable` (Model/SerTokens.lean) asks and the tokenizer does NOT check.
+    `C03:xml-prefix-rebound-accepted` / `C03:not-representable-xml-prefix-rebound`: no namespace node
+    binds the prefix `xml` (to whatever URI: `xmlns:xml="zzz"`, `xmlns:xml=""`, and the permitted but
+    never serialised `xmlns:xml="http://www.w3.org/XML/1998/namespace"`).  Everything else Namespaces
+    in XML reserves (the prefix `xmlns`, other prefixes for the XML namespace name, the xmlns
+    namespace name, `xmlns:p=""`) is rejected by the parser since /repo 5298f5f, d87cde0.
+  * `PlainPiTargets env t`: every processing-instruction target is an NCName (no colon) — what
+    `Representable` (Model/SerTokens.lean) asks and the tokenizer does NOT check.  The target `xml`
+    in any letter case is rejected by the parser since /repo dd2a136.
 -/
 import XotModel.Model.SerTokens
 
 namespace XotModel
 
-/-- `http://www.w3.org/2000/xmlns/` -/
-def xmlnsNamespaceUri : Str :=
-  ['h', 't', 't', 'p', ':', '/', '/', 'w', 'w', 'w', '.', 'w', '3', '.', 'o', 'r', 'g', '/', '2', '0', '0', '0', '/',
-   'x', 'm', 'l', 'n', 's', '/']
-
-/-- A namespace declaration that Namespaces in XML 1.0 allows as far as reserved names and
-    undeclaring go. -/
-def declAllowed (env : Env) (p ns : Nat) : Bool :=
-  p != Env.xmlPrefix && env.prefixStr p != xmlnsName &&
-  ns != Env.xmlNamespace && env.namespaceStr ns != xmlnsNamespaceUri &&
-  (p == Env.emptyPrefix || ns != Env.noNamespace)
+/-- A namespace declaration the parser accepts and `Representable` admits: not of the prefix `xml`. -/
+def declAllowed (_env : Env) (p _ns : Nat) : Bool := p != Env.xmlPrefix
 
 def noReservedDecl (env : Env) (v : Value) (_ : List Tree) : Bool :=
   match v with
   | .namespace p ns => declAllowed env p ns
   | _ => true
 
-/-- No namespace node of the tree is a reserved (re)binding or a prefixed undeclaration. -/
+/-- No namespace node of the tree declares the prefix `xml`. -/
 def NoReservedDecls (env : Env) (t : Tree) : Bool := t.allNodes (noReservedDecl env)
 
 def plainPiTarget (env : Env) (v : Value) (_ : List Tree) : Bool :=
   match v with
   | .pi target _ =>
-    ncNameNE (env.localName target) && (env.localName target).map asciiLowerChar != ['x', 'm', 'l']
+    ncNameNE (env.localName target)
   | _ => true
 
-/-- Every PI target is an NCName other than `xml` (any letter case). -/
+/-- Every PI target is an NCName (no colon). -/
 def PlainPiTargets (env : Env) (t : Tree) : Bool := t.allNodes (plainPiTarget env)
 
 end XotModel
